@@ -863,3 +863,30 @@ def parse_receipt_obs(P: str) -> list[Ob]:
         Ob(f"{P}.P.parse.canonical", "P", "a canonical KEY::<scalar> line appends no receipt (PATTERN / REGEX keys: exactly the documented auto-quote receipt at the key)", [ps, pv], make(lambda ctx: [f"canonical({k!r})" for k in PS.KINDS])),
         Ob(f"{P}.P.parse.bare-flow", "P", "KEY -> <scalar> reads as the assignment and appends exactly one bare_flow receipt at the operator's line/column", [ps, pv], make(lambda ctx: [f"bare_flow({k!r})" for k in PS.KINDS])),
     ]
+
+
+def probe_emit_layout() -> tuple[bool, str]:
+    """concrete stand-in for the emitter layout contracts: API-built documents are emitted in the strict layout"""
+    from octave_mcp.core.ast_nodes import Assignment, Block, Document
+    from octave_mcp.core.emitter import emit, emit_value
+
+    bad = []
+    for v in (5, "x", "a b", True, None):
+        e0, e1, e2 = emit_value(v, 0), emit_value(v, 1), emit_value(v, 2)
+        d = Document(name="N", meta={"TYPE": v, "SUB": {"I": v}}, sections=[Assignment(key="K", value=v), Block(key="B", children=[Assignment(key="C", value=v), Block(key="D", children=[Assignment(key="E", value=v)])]), Assignment(key="Z", value=v)])
+        want = f"===N===\nMETA:\n  TYPE::{e1}\n  SUB:\n    I::{e2}\nK::{e0}\nB:\n  C::{e1}\n  D:\n    E::{e2}\nZ::{e0}\n===END===\n"
+        got = emit(d)
+        if got != want:
+            bad.append(f"value {v!r}: emitted {got!r}, strict layout {want!r}")
+    return bool(bad), "; ".join(bad[:2]) or "5 API-built documents (META with a nested level, blocks two deep, siblings) are emitted in the strict layout"
+
+
+def emit_layout_obs(P: str) -> list[Ob]:
+    """the strict-profile layout of the real emitter on document spines (contracts/emit_layout.py)"""
+    from contracts import emit_layout as EL
+
+    def make(group):
+        return _contract_group(group, probe_emit_layout, "props.lexical:probe_emit_layout", ns="emit_layout")
+
+    fns = ["octave_mcp.core.emitter:emit", "octave_mcp.core.emitter:emit_assignment", "octave_mcp.core.emitter:emit_block", "octave_mcp.core.emitter:emit_meta"]
+    return [Ob(f"{P}.P.emit.layout", "P", "emit on document spines (top-level assignment, blocks 1-3 deep, siblings, META with a nested level): the text is exactly the strict layout - explicit ===NAME=== / ===END===, KEY::value with no space, two spaces per level, one final newline - around the value texts emit_value returns", fns, make(lambda ctx: EL.all_contracts(ctx.thorough)))]
